@@ -276,6 +276,36 @@ pub fn cases(tier: &str, seed: u64) -> Vec<Case> {
         }
         v.push(c);
     }
+    // long attribute texts: what `long_attributes` is for - a semicolon-separated text longer than one character-string,
+    // split by `TXT::try_from(&str)` wherever the 255-byte limit falls (inside a multi-byte character, inside a key, right
+    // after a ';' or '='), read back as one text
+    for total in (230..=300usize).step_by(if thorough { 1 } else { 3 }).chain((480..=540).step_by(if thorough { 1 } else { 5 })).chain([760, 1020, 1500, 4000]) {
+        for fill in ["v", "é", "€", "\u{1F600}", "a=b", ";;"] {
+            for lead in ["name=xx", "k", "flag;name=", "é=", ""] {
+                let mut text = String::from(lead);
+                while text.len() + fill.len() + 9 <= total { text.push_str(fill); }
+                text.push_str(";flag;n=1");
+                let mut c = Case::oracle_only().tag("long-attribute-text");
+                match TXT::try_from(text.as_str()) {
+                    Err(_) => { c = c.fail("split-refused", format!("a {}-byte attribute text is refused", text.len())); }
+                    Ok(t) => {
+                        let mut want: HashMap<String, Option<String>> = HashMap::new();
+                        let chars: Vec<char> = text.chars().collect();
+                        for part in chars.split(|ch| *ch == ';') {
+                            let (k, val) = match part.iter().position(|ch| *ch == '=') { Some(i) => (&part[..i], Some(part[i + 1..].iter().collect::<String>())), None => (part, None) };
+                            let k: String = k.iter().collect();
+                            if !k.is_empty() { want.entry(k).or_insert(val); }
+                        }
+                        match t.long_attributes() {
+                            Ok(m) => { if m != want { c = c.fail("long-attributes", format!("a {}-byte text ({} strings) reads back as another map", text.len(), (text.len() + 253) / 254)); } }
+                            Err(_) => { c = c.fail("long-attributes-utf8", format!("long_attributes fails on the TXT made from a valid {}-byte text", text.len())); }
+                        }
+                    }
+                }
+                v.push(c);
+            }
+        }
+    }
     // character-string construction, every length 0..300
     for len in 0..=300usize {
         let b = r.bytes(len);
